@@ -28,23 +28,29 @@ SV vf_snap; SV *vf_snap_of;
 #define EXPECT_VIOLATION(v) do { vf_expect_handler = 1; vf_snap = (v); vf_snap_of = &(v); } while (0)
 #include "vf_handler.h"
 
-/* exact-size heap buffer `name` of n characters (n symbolic <= MAX) copied from the input array name_in. Unlike VF_BUF the
- * native build really allocates n bytes (malloc(0) for the empty view), so that ASan reports h[0] on an empty view. */
+/* exact-size heap buffers. sv_alloc(n) is malloc(n * sizeof(CH)) written as a case split so that under CBMC every buffer is an
+ * object of CONSTANT size (symbolic-size objects cost ~5x in the SAT encoding); natively it is the very same malloc, including
+ * malloc(0) for the empty view so that ASan reports h[0] on an empty view. */
+static CH *sv_alloc(unsigned long n) { switch (n) {
+  case 0: return (CH *)malloc(0); case 1: return (CH *)malloc(1 * sizeof(CH)); case 2: return (CH *)malloc(2 * sizeof(CH)); case 3: return (CH *)malloc(3 * sizeof(CH));
+  case 4: return (CH *)malloc(4 * sizeof(CH)); case 5: return (CH *)malloc(5 * sizeof(CH)); case 6: return (CH *)malloc(6 * sizeof(CH)); default: return (CH *)malloc(n * sizeof(CH)); } }
+/* buffer `name` of n characters (n symbolic <= MAX), copied from the input array name_in; no terminator, nothing behind it */
 #define SV_BUF(name, n, MAX)                                                                                           \
     VF_INPUT_ARR(CH, name##_in, (MAX) + 1); VF_INPUT(unsigned char, n); __CPROVER_assume(n <= (MAX));                  \
-    CH *name = (CH *)malloc((unsigned long)n * sizeof(CH));                                                            \
+    CH *name = sv_alloc(n);                                                                                            \
     for (unsigned long i_##name = 0; i_##name < n; ++i_##name) name[i_##name] = name##_in[i_##name]
 /* the same characters as an exact-size C string: n characters and the terminator, nothing behind it */
 #define SV_CSTR(name, src_in, n)                                                                                       \
-    CH *name = (CH *)malloc(((unsigned long)n + 1) * sizeof(CH));                                                      \
+    CH *name = sv_alloc((unsigned long)n + 1);                                                                         \
     for (unsigned long j_##name = 0; j_##name < n; ++j_##name) name[j_##name] = src_in[j_##name];                      \
     name[n] = 0
+#define SV_VIEW(v, p, n) SV v; v._begin = p; v._size = n
 /* view of unbounded length (<= BIG) with arbitrary contents, for loop-free functions */
-#define BIG_VIEW(h, p, n) VF_INPUT(unsigned long, n); __CPROVER_assume(n <= BIG); CH *p = (CH *)malloc(n * sizeof(CH)); SV h; h._begin = p; h._size = n
+#define BIG_VIEW(h, p, n) VF_INPUT(unsigned long, n); __CPROVER_assume(n <= BIG); CH *p = (CH *)malloc(n * sizeof(CH)); SV_VIEW(h, p, n)
 
 /* ---- reference semantics ------------------------------------------------------------------------------------------------ */
 static unsigned long r_min(unsigned long a, unsigned long b) { return a < b ? a : b; }
-static unsigned long r_strlen(const CH *s, unsigned long cap) { for (unsigned long i = 0; i <= NMAX; ++i) { if (i >= cap) break; if (s[i] == 0) return i; } return cap; }
+static unsigned long r_strlen(const CH *s, unsigned long cap) { for (unsigned long i = 0; i < NMAX; ++i) { if (i >= cap) break; if (s[i] == 0) return i; } return cap; }
 /* h[x, x+nn) == n[0, nn); the caller guarantees x + nn <= hn */
 static _Bool r_match(const CH *h, unsigned long x, const CH *n, unsigned long nn) { for (unsigned long i = 0; i < NMAX; ++i) if (i < nn && h[x + i] != n[i]) return 0; return 1; }
 static _Bool r_in(CH c, const CH *n, unsigned long nn) { for (unsigned long i = 0; i < NMAX; ++i) if (i < nn && n[i] == c) return 1; return 0; }
@@ -64,7 +70,7 @@ static unsigned long r_flo(const CH *h, unsigned long hn, const CH *n, unsigned 
   for (unsigned long j = 1; j <= HMAX; ++j) { unsigned long x = HMAX - j; if (x > pos || x >= hn) continue; if (r_in(h[x], n, nn)) return x; } return NPOS; }
 static unsigned long r_flno(const CH *h, unsigned long hn, const CH *n, unsigned long nn, unsigned long pos) {
   for (unsigned long j = 1; j <= HMAX; ++j) { unsigned long x = HMAX - j; if (x > pos || x >= hn) continue; if (!r_in(h[x], n, nn)) return x; } return NPOS; }
-/* compare: traits::compare over rlen = min(an, bn) (first position where lt holds either way decides), then the lengths */
+/* compare: traits::compare over rlen = min(an, bn) (the first position where lt holds either way decides), then the lengths */
 static int r_cmp(const CH *a, unsigned long an, const CH *b, unsigned long bn) {
   for (unsigned long i = 0; i < HMAX; ++i) { if (i >= an || i >= bn) break; if (LT(a[i], b[i])) return -1; if (LT(b[i], a[i])) return 1; }
   return an < bn ? -1 : (an > bn ? 1 : 0); }
@@ -79,30 +85,104 @@ static unsigned long r_mismatch(const CH *a, unsigned long an, const CH *b, unsi
 static _Bool w_find_tail(const CH *h, unsigned long hn, const CH *n, unsigned long nn, unsigned long pos) {
   if (nn < 2 || pos > hn || nn > hn - pos || r_find(h, hn, n, nn, pos) != NPOS) return 0;
   for (unsigned long x = 0; x < HMAX; ++x) { if (x < pos || x >= hn || hn - x >= nn) continue; if (r_match(h, x, n, hn - x)) return 1; } return 0; }
-/* compare / relational with char: sign decided at the first mismatch by SIGNED char order although traits::lt is unsigned */
+/* compare / relational on char: the sign is decided at the first mismatch by SIGNED char order although traits::lt is unsigned */
 static _Bool w_cmp_signed(const CH *a, unsigned long an, const CH *b, unsigned long bn) {
-  unsigned long m = r_mismatch(a, an, b, bn); return m < an && m < bn && (a[m] < 0) != (b[m] < 0); }
+  unsigned long m = r_mismatch(a, an, b, bn); return VF_CT == 0 && m < an && m < bn && (a[m] < 0) != (b[m] < 0); }
 
 /* ---- shared shape of the six search families ---------------------------------------------------------------------------- */
-/* overloads: 0 (view,pos) 1 (char,pos) 2 (ptr,pos,count) 3 (C string,pos) 4 (view) 5 (char) 6 (C string); (en, enn, ep) is the
- * needle and position the standard defines the overload by */
-#define SEARCH_SETUP(DEFPOS)                                                                                           \
-    SV_BUF(hay, hn, HMAX); SV_BUF(nd, nn, NMAX); VF_INPUT(unsigned long, pos); VF_INPUT(unsigned char, which);         \
-    __CPROVER_assume(which <= 6); SV_CSTR(cs, nd_in, nn);                                                              \
-    SV h; h._begin = hay; h._size = hn; SV n; n._begin = nd; n._size = nn; CH c = nd_in[0];                            \
-    _Bool isc = which == 1 || which == 5, isz = which == 3 || which == 6;                                              \
-    unsigned long enn = isc ? 1 : (isz ? r_strlen(nd_in, nn) : nn), ep = which >= 4 ? (DEFPOS) : pos;                  \
-    const CH *en = nd_in
-#define SEARCH_CALL(F, REF, WHAT)                                                                                      \
-    unsigned long r = which == 0 ? sv_##F##_v(&h, &n, pos) : which == 1 ? sv_##F##_c(&h, c, pos)                       \
-                    : which == 2 ? sv_##F##_pn(&h, nd, pos, nn) : which == 3 ? sv_##F##_p(&h, cs, pos)                 \
-                    : which == 4 ? sv_##F##_vd(&h, &n) : which == 5 ? sv_##F##_cd(&h, c) : sv_##F##_pd(&h, cs);        \
+/* (en, enn, ep) = needle and position by which the standard defines the overload that is called */
+#define HAYSTACK(DEFPOS)                                                                                               \
+    SV_BUF(hay, hn, HMAX); SV_VIEW(h, hay, hn); VF_INPUT(unsigned long, pos); VF_INPUT_BOOL(dflt);                     \
+    unsigned long ep = dflt ? (DEFPOS) : pos
+/* overloads (view,pos) and (view) */
+#define NEEDLE_V() SV_BUF(nd, nn, NMAX); SV_VIEW(n, nd, nn); const CH *en = nd_in; unsigned long enn = nn
+#define CALL_V(F) (dflt ? sv_##F##_vd(&h, &n) : sv_##F##_v(&h, &n, pos))
+/* overloads (ptr,pos,count), (C string,pos), (C string) */
+#define NEEDLE_P() SV_BUF(nd, nn, NMAX); SV_CSTR(cs, nd_in, nn); VF_INPUT_BOOL(counted); __CPROVER_assume(!(counted && dflt));   \
+    const CH *en = nd_in; unsigned long enn = counted ? nn : r_strlen(nd_in, nn)
+#define CALL_P(F) (counted ? sv_##F##_pn(&h, nd, pos, nn) : (dflt ? sv_##F##_pd(&h, cs) : sv_##F##_p(&h, cs, pos)))
+/* overloads (char,pos), (char) */
+#define NEEDLE_C() VF_INPUT_ARR(CH, nd_in, 1); CH c = nd_in[0]; const CH *en = nd_in; unsigned long enn = 1
+#define CALL_C(F) (dflt ? sv_##F##_cd(&h, c) : sv_##F##_c(&h, c, pos))
+#define SEARCH_CHECK(r, REF, WHAT)                                                                                     \
     VF_ASSERT(r == REF(hay_in, hn, en, enn, ep), WHAT);                                                                \
     VF_ASSERT(h._begin == hay && h._size == hn, "the view itself is unchanged by a search");                           \
     VF_REACH()
+#define T_FIND "find: lowest xpos >= pos with xpos + n.size() <= size() and the needle at xpos, else npos"
+#define T_RFIND "rfind: highest xpos <= pos with xpos + n.size() <= size() and the needle at xpos, else npos"
+#define T_FFO "find_first_of: lowest xpos >= pos, xpos < size() with at(xpos) in the set, else npos"
+#define T_FLO "find_last_of: highest xpos <= pos, xpos < size() with at(xpos) in the set, else npos"
+#define T_FFNO "find_first_not_of: lowest xpos >= pos, xpos < size() with at(xpos) not in the set, else npos"
+#define T_FLNO "find_last_not_of: highest xpos <= pos, xpos < size() with at(xpos) not in the set, else npos"
 
-/*@GROUP name=find props=C08,C02,C05 kind=B unwind=9 bound=haystack<=6,needle<=3 cost=3@*/
-void h_find(void) { SEARCH_SETUP(0UL);
-  VF_KNOWN(C08_find_empty_needle, !isc && enn == 0 && ep <= hn);
-  VF_KNOWN(C08_find_tail_overread, !isc && w_find_tail(hay_in, hn, en, enn, ep));
-  SEARCH_CALL(find, r_find, "find: lowest xpos >= pos with xpos + n.size() <= size() and the needle at xpos, else npos"); }
+/*@GROUP name=find props=C08,C02,C05 kind=B unwind=8 bound=haystack<=6,needle<=3 cost=3@*/
+void h_find(void) { HAYSTACK(0UL); NEEDLE_V();
+  VF_KNOWN(C08_find_empty_needle, enn == 0 && ep <= hn);
+  VF_KNOWN(C08_find_tail_overread, w_find_tail(hay_in, hn, en, enn, ep));
+  unsigned long r = CALL_V(find); SEARCH_CHECK(r, r_find, T_FIND); }
+
+/*@GROUP name=find_ptr props=C08,C02,C05 kind=B unwind=8 bound=haystack<=6,needle<=3 cost=3@*/
+void h_find_ptr(void) { HAYSTACK(0UL); NEEDLE_P();
+  VF_KNOWN(C08_find_empty_needle, enn == 0 && ep <= hn);
+  VF_KNOWN(C08_find_tail_overread, w_find_tail(hay_in, hn, en, enn, ep));
+  unsigned long r = CALL_P(find); SEARCH_CHECK(r, r_find, T_FIND); }
+
+/*@GROUP name=find_ch props=C08,C02,C05 kind=B unwind=8 bound=haystack<=6@*/
+void h_find_ch(void) { HAYSTACK(0UL); NEEDLE_C(); unsigned long r = CALL_C(find); SEARCH_CHECK(r, r_find, T_FIND); }
+
+/*@GROUP name=rfind props=C08,C02,C05 kind=B unwind=8 bound=haystack<=6,needle<=3 cost=3@*/
+void h_rfind(void) { HAYSTACK(NPOS); NEEDLE_V(); unsigned long r = CALL_V(rfind); SEARCH_CHECK(r, r_rfind, T_RFIND); }
+
+/*@GROUP name=rfind_ptr props=C08,C02,C05 kind=B unwind=8 bound=haystack<=6,needle<=3 cost=3@*/
+void h_rfind_ptr(void) { HAYSTACK(NPOS); NEEDLE_P(); unsigned long r = CALL_P(rfind); SEARCH_CHECK(r, r_rfind, T_RFIND); }
+
+/*@GROUP name=rfind_ch props=C08,C02,C05 kind=B unwind=8 bound=haystack<=6@*/
+void h_rfind_ch(void) { HAYSTACK(NPOS); NEEDLE_C(); unsigned long r = CALL_C(rfind); SEARCH_CHECK(r, r_rfind, T_RFIND); }
+
+/*@GROUP name=first_of props=C08,C02,C05 kind=B unwind=8 bound=haystack<=6,set<=3 cost=2@*/
+void h_first_of(void) { HAYSTACK(0UL); NEEDLE_V(); unsigned long r = CALL_V(find_first_of); SEARCH_CHECK(r, r_ffo, T_FFO); }
+
+/*@GROUP name=first_of_ptr props=C08,C02,C05 kind=B unwind=8 bound=haystack<=6,set<=3 cost=2@*/
+void h_first_of_ptr(void) { HAYSTACK(0UL); NEEDLE_P(); unsigned long r = CALL_P(find_first_of); SEARCH_CHECK(r, r_ffo, T_FFO); }
+
+/*@GROUP name=first_of_ch props=C08,C02,C05 kind=B unwind=8 bound=haystack<=6@*/
+void h_first_of_ch(void) { HAYSTACK(0UL); NEEDLE_C(); unsigned long r = CALL_C(find_first_of); SEARCH_CHECK(r, r_ffo, T_FFO); }
+
+/*@GROUP name=last_of props=C08,C02,C05 kind=B unwind=8 bound=haystack<=6,set<=3 cost=2@*/
+void h_last_of(void) { HAYSTACK(NPOS); NEEDLE_V();
+  VF_KNOWN(C08_find_last_empty_view, hn == 0);
+  unsigned long r = CALL_V(find_last_of); SEARCH_CHECK(r, r_flo, T_FLO); }
+
+/*@GROUP name=last_of_ptr props=C08,C02,C05 kind=B unwind=8 bound=haystack<=6,set<=3 cost=2@*/
+void h_last_of_ptr(void) { HAYSTACK(NPOS); NEEDLE_P();
+  VF_KNOWN(C08_find_last_empty_view, hn == 0);
+  unsigned long r = CALL_P(find_last_of); SEARCH_CHECK(r, r_flo, T_FLO); }
+
+/*@GROUP name=last_of_ch props=C08,C02,C05 kind=B unwind=8 bound=haystack<=6@*/
+void h_last_of_ch(void) { HAYSTACK(NPOS); NEEDLE_C();
+  VF_KNOWN(C08_find_last_empty_view, hn == 0);
+  unsigned long r = CALL_C(find_last_of); SEARCH_CHECK(r, r_flo, T_FLO); }
+
+/*@GROUP name=first_not_of props=C08,C02,C05 kind=B unwind=8 bound=haystack<=6,set<=3 cost=2@*/
+void h_first_not_of(void) { HAYSTACK(0UL); NEEDLE_V(); unsigned long r = CALL_V(find_first_not_of); SEARCH_CHECK(r, r_ffno, T_FFNO); }
+
+/*@GROUP name=first_not_of_ptr props=C08,C02,C05 kind=B unwind=8 bound=haystack<=6,set<=3 cost=2@*/
+void h_first_not_of_ptr(void) { HAYSTACK(0UL); NEEDLE_P(); unsigned long r = CALL_P(find_first_not_of); SEARCH_CHECK(r, r_ffno, T_FFNO); }
+
+/*@GROUP name=first_not_of_ch props=C08,C02,C05 kind=B unwind=8 bound=haystack<=6@*/
+void h_first_not_of_ch(void) { HAYSTACK(0UL); NEEDLE_C(); unsigned long r = CALL_C(find_first_not_of); SEARCH_CHECK(r, r_ffno, T_FFNO); }
+
+/*@GROUP name=last_not_of props=C08,C02,C05 kind=B unwind=8 bound=haystack<=6,set<=3 cost=2@*/
+void h_last_not_of(void) { HAYSTACK(NPOS); NEEDLE_V();
+  VF_KNOWN(C08_find_last_empty_view, hn == 0);
+  unsigned long r = CALL_V(find_last_not_of); SEARCH_CHECK(r, r_flno, T_FLNO); }
+
+/*@GROUP name=last_not_of_ptr props=C08,C02,C05 kind=B unwind=8 bound=haystack<=6,set<=3 cost=2@*/
+void h_last_not_of_ptr(void) { HAYSTACK(NPOS); NEEDLE_P();
+  VF_KNOWN(C08_find_last_empty_view, hn == 0);
+  unsigned long r = CALL_P(find_last_not_of); SEARCH_CHECK(r, r_flno, T_FLNO); }
+
+/*@GROUP name=last_not_of_ch props=C08,C02,C05 kind=B unwind=8 bound=haystack<=6@*/
+void h_last_not_of_ch(void) { HAYSTACK(NPOS); NEEDLE_C();
+  VF_KNOWN(C08_find_last_empty_view, hn == 0);
+  unsigned long r = CALL_C(find_last_not_of); SEARCH_CHECK(r, r_flno, T_FLNO); }
